@@ -748,3 +748,40 @@ pub fn slots_each_alone(n: usize) -> Vec<Universe> {
     }
     out
 }
+
+/// a multi-output job whose two outputs change independently: `x:Always, y:Always -> p:::q` (part p
+/// reads x, part q reads y), `d:Output` consumes p, `c:Output` consumes q; every sub-configuration of
+/// the consumers.  With the production-like comparison a change of y is no change for d.
+/// `volatile_last`: M is an Ephemeral whose part q (only) differs on every execution (C16).
+pub fn split_outputs(m_kind: Kind, volatile_last: bool) -> Vec<Universe> {
+    let mut graphs = Vec::new();
+    for has_d in [true, false] {
+        for has_c in [true, false] {
+            let mut m = JobDef::new("p:::q", m_kind);
+            m.split_inputs = true;
+            if volatile_last {
+                m.volatile = true;
+                m.volatile_last_only = true;
+            }
+            let mut jobs = vec![JobDef::new("x", Kind::A), JobDef::new("y", Kind::A), m];
+            let mut edges = vec![
+                Edge { up: 0, down: 2, read: true, parts: vec![] },
+                Edge { up: 1, down: 2, read: true, parts: vec![] },
+            ];
+            if has_d {
+                jobs.push(JobDef::new("d", Kind::O));
+                edges.push(Edge { up: 2, down: jobs.len() - 1, read: true, parts: vec!["p".into()] });
+            }
+            if has_c {
+                jobs.push(JobDef::new("c", Kind::O));
+                edges.push(Edge { up: 2, down: jobs.len() - 1, read: true, parts: vec!["q".into()] });
+            }
+            graphs.push(Graph { jobs, edges });
+        }
+    }
+    graphs.sort_by_key(|g| (g.n(), g.edges.len()));
+    vec![Universe {
+        label: format!("split:{:?}{}", m_kind, if volatile_last { ":volatile-q" } else { "" }),
+        graphs,
+    }]
+}
